@@ -3,7 +3,7 @@
    nat stays Peano, N/positive stay the library inductives. No Extract Constant. *)
 Require Extraction.
 Require Import ExtrOcamlBasic.
-From BB Require Import BN Brute Diagram Filter Checks Strict PetriNet Control Candidates Blocks ASeeds Signed Names ASeedsFacts BlockMath BlockComplete LogChecks SkipRule SCC.
+From BB Require Import BN Brute Diagram Filter Checks Strict PetriNet Control Candidates Blocks ASeeds Signed Names ASeedsFacts BlockMath BlockComplete LogChecks SkipRule SCC PyLib PySrc.
 Extraction Language OCaml.
 Extraction "bbmodel_core.ml"
   net_of_tables percolate_b max_traps_b min_traps_b is_trap_b sources_b attractors_b
@@ -16,5 +16,6 @@ Extraction "bbmodel_core.ml"
   expand_block expand_aseeds no_neg_walk_b
   expand_aseeds_log expand_block_log nfvs_log_ok_b clean_log_ok_b nfvs_entry_ok_b clean_entry_ok_b block_clean_b
   query_order lost times_represented compute_attractors_filter expand_scc source_sccs
+  py_is_subspace py_intersect py_space_unique_key py_variable_to_place py_place_to_variable
   sanitize check_only_ok place_name place_to_variable
   init step run depth minimal_ids find_node successors is_minimal size get.
